@@ -292,8 +292,9 @@ ElemAttribute::startElement(StylesheetExecutionContext& executionContext) const
                 !equals(origAttrName, DOMServices::s_XMLNamespace))
         {
             // Don't try to create a namespace declaration for anything that
-            // starts with xml:
-            if (startsWith(origAttrName, DOMServices::s_XMLString) == true)
+            // starts with xml: or xmlns:
+            if (startsWith(origAttrName, DOMServices::s_XMLStringWithSeparator) == true ||
+                startsWith(origAttrName, DOMServices::s_XMLNamespaceWithSeparator) == true)
             {
                 // This just fakes out the test below.  It would be better if
                 // we had a better way of testing this...
@@ -601,8 +602,9 @@ ElemAttribute::execute(StylesheetExecutionContext&  executionContext) const
                 !equals(origAttrName, DOMServices::s_XMLNamespace))
         {
             // Don't try to create a namespace declaration for anything that
-            // starts with xml:
-            if (startsWith(origAttrName, DOMServices::s_XMLString) == true)
+            // starts with xml: or xmlns:
+            if (startsWith(origAttrName, DOMServices::s_XMLStringWithSeparator) == true ||
+                startsWith(origAttrName, DOMServices::s_XMLNamespaceWithSeparator) == true)
             {
                 // This just fakes out the test below.  It would be better if
                 // we had a better way of testing this...
